@@ -427,6 +427,45 @@ func tableSequence(o *Out, r *rand.Rand, seqNo, nOps int) {
 		snap, _ := ts.snapshot()
 		o.Case("loadseeds "+strings.Join(bootRefs, ","), snap)
 	}
+	// every seventh sequence begins with a node that collects five fruitless queries while its bucket is too small for that to
+	// matter, sees the bucket grow, and then ANSWERS a query: it stays (and its failure count is forgotten)
+	if seqNo%7 == 1 && !preInit {
+		func() {
+			defer func() { _ = recover() }()
+			var far []int
+			for i := 0; i < nIds && len(far) < 5; i++ {
+				if tab.VerifBucketIndex(ids[i]) == tab.VerifBucketIndex(ids[0]) {
+					far = append(far, i)
+				}
+			}
+			if len(far) < 5 {
+				return
+			}
+			addRec := func(i int) int {
+				k := newRec(i)
+				ok := tab.VerifAddNode(recs[k].node, false, true)
+				snap, _ := ts.snapshot()
+				o.Case(fmt.Sprintf("add r%d inbound=0 live=1", k), fmt.Sprintf("ret=%d %s", b2i(ok), snap))
+				return k
+			}
+			track := func(k int, success bool, found []*enode.Node, fs []string) {
+				_, before := ts.snapshot()
+				tab.VerifHandleTrackRequest(recs[k].node, success, found)
+				fails := tab.VerifFindFails(recs[k].node)
+				snap, after := ts.snapshot()
+				o.Case(fmt.Sprintf("track r%d success=%d fails=%d rnd=%d found=%s", k, b2i(success), fails, promotedIndex(before, after), strings.Join(append([]string{"-"}, fs...), ",")), snap)
+			}
+			ka := addRec(far[0])
+			for j := 0; j < 5+r.Intn(3); j++ {
+				track(ka, false, nil, nil)
+			}
+			var kb int
+			for _, i := range far[1:] {
+				kb = addRec(i)
+			}
+			track(ka, true, []*enode.Node{recs[kb].node}, []string{"r" + strconv.Itoa(kb)})
+		}()
+	}
 	for op := 0; op < nOps; op++ {
 		if len(boot) > 0 && r.Intn(25) == 0 {
 			// a refresh loads the seeds again
